@@ -70,10 +70,10 @@ func elemToks(kind, m int) []string {
 }
 
 type contDesc struct {
-	isMap          bool
-	n, ek, pos, m  int
-	ctx, mode      int
-	trailing       bool
+	isMap         bool
+	n, ek, pos, m int
+	ctx, mode     int
+	trailing      bool
 }
 
 var contModes = []int{layOne, layMulti, layOpNL}
